@@ -13,7 +13,10 @@ import time
 
 VERIF = os.path.dirname(os.path.dirname(os.path.dirname(os.path.abspath(__file__))))
 REPO = os.environ.get("VERIF_REPO", "/repo")
-LEAN_DIR = os.path.join(VERIF, "lean")
+# VERIF_LEAN_DIR / VERIF_EVIDENCE_DIR: a private copy of the Lean project / a private evidence directory, for running several
+# checks side by side against different scratch trees (seeded/pdetect.py); the registered commands use the defaults
+LEAN_DIR = os.environ.get("VERIF_LEAN_DIR") or os.path.join(VERIF, "lean")
+EVIDENCE_BASE = os.environ.get("VERIF_EVIDENCE_DIR") or VERIF
 HARNESS = os.path.join(VERIF, "harness")
 GOENV = dict(os.environ, GOFLAGS="-mod=mod", GOPROXY="off")
 GOENV.pop("GOTOOLCHAIN", None) if os.environ.get("GOTOOLCHAIN") == "local" else None
@@ -60,9 +63,15 @@ def build_yardl(scratch, tags=None):
 
 
 def build_go_harness(scratch, name):
-    """Build harness/go/cmd/<name> against /repo/tooling (replace directive)."""
-    src = os.path.join(HARNESS, "go")
-    shutil.copyfile(os.path.join(REPO, "tooling", "go.sum"), os.path.join(src, "go.sum"))
+    """Build harness/go/cmd/<name> against the tooling module of the tree under test (a copy of the harness module in the
+    scratch directory, its replace directive pointing at REPO/tooling)."""
+    src = scratch.path("goharness")
+    if not os.path.exists(src):
+        shutil.copytree(os.path.join(HARNESS, "go"), src)
+        mod = open(os.path.join(src, "go.mod")).read()
+        mod = re.sub(r"(replace github\.com/microsoft/yardl/tooling => )\S+", lambda m: m.group(1) + os.path.join(REPO, "tooling"), mod)
+        open(os.path.join(src, "go.mod"), "w").write(mod)
+        shutil.copyfile(os.path.join(REPO, "tooling", "go.sum"), os.path.join(src, "go.sum"))
     out = scratch.path("bin", name)
     os.makedirs(os.path.dirname(out), exist_ok=True)
     run(["go", "build", "-tags", "verif", "-o", out, f"./cmd/{name}"], cwd=src, env=GOENV, check=True)
@@ -240,6 +249,7 @@ def to_snake(name):
 # ----------------------------------------------------------------------------- generated C++
 
 CPP_MAIN_HEAD = r'''
+#include <cstdlib>
 #include <fstream>
 #include <iostream>
 #include <sstream>
@@ -265,23 +275,81 @@ int run(std::string const& in, std::string const& out, F copy) {
   os.flush();
   return rc;
 }
+static int dispatch(std::string const& proto, std::string const& infmt, std::string const& outfmt, std::string const& in, std::string const& out,
+                    std::vector<size_t> bs);
+// one job:   xlate <protocol> <in format> <out format> <in file> <out file> [batch sizes...]
+// many jobs in this one process (readers and writers of several protocols, one after the other):
+//            xlate --multi <file with one job per line>        -> one line "rc=<n>" per job on stdout
 int main(int argc, char** argv) {
+  if (argc == 3 && std::string(argv[1]) == "--multi") {
+    std::ifstream jobs(argv[2]);
+    std::string line;
+    while (std::getline(jobs, line)) {
+      std::istringstream ls(line);
+      std::string proto, infmt, outfmt, in, out;
+      ls >> proto >> infmt >> outfmt >> in >> out;
+      std::vector<size_t> bs;
+      size_t b;
+      while (ls >> b) bs.push_back(b);
+      while (bs.size() < 64) bs.push_back(1);
+      std::cerr << "JOB " << proto << " " << infmt << outfmt << "\n";
+      std::cout << "rc=" << dispatch(proto, infmt, outfmt, in, out, bs) << std::endl;
+    }
+    return 0;
+  }
   if (argc < 6) return 2;
-  std::string proto = argv[1], infmt = argv[2], outfmt = argv[3], in = argv[4], out = argv[5];
   std::vector<size_t> bs;
   for (int i = 6; i < argc; i++) bs.push_back(std::stoul(argv[i]));
   while (bs.size() < 64) bs.push_back(1);
+  return dispatch(argv[1], argv[2], argv[3], argv[4], argv[5], bs);
+}
+static int dispatch(std::string const& proto, std::string const& infmt, std::string const& outfmt, std::string const& in, std::string const& out,
+                    std::vector<size_t> bs) {
 '''
 
 
-def cpp_main(namespace_ident, protocols, ndjson=True):
-    """protocols: [(name, n_stream_steps)]"""
+def cpp_steps_from_header(out_cpp, name):
+    """the steps of protocol `name` as the generated protocols.h declares them: [(PascalCase step, C++ type, is stream)]"""
+    try:
+        text = open(os.path.join(out_cpp, "protocols.h")).read()
+    except OSError:
+        return None
+    m = re.search(r"class " + re.escape(name) + r"WriterBase \{(.*?)\n\};", text, re.S)
+    if not m:
+        return None
+    body, steps, seen = m.group(1), [], set()
+    for sm in re.finditer(r"^\s*void Write(\w+)\((.+) const& value\);", body, re.M):
+        step, ty = sm.group(1), sm.group(2)
+        if step in seen:
+            continue
+        seen.add(step)
+        steps.append((step, ty, re.search(r"^\s*void End" + re.escape(step) + r"\(\);", body, re.M) is not None))
+    return steps
+
+
+def cpp_main(namespace_ident, protocols, ndjson=True, out_cpp=None):
+    """protocols: [(name, n_stream_steps)]. With VF_EMPTY_BATCHES set in the environment of the built translator, every stream
+    is copied through the batch overload with an empty batch written before, between and after the batches read (the steps
+    and their C++ types are taken from the generated protocols.h): an empty batch is no item and must not end the stream."""
     src = CPP_MAIN_HEAD % {"ndjson_include": '#include "ndjson/protocols.h"' if ndjson else ""}
     for name, nstreams in protocols:
         args = "".join(f", bs[{i}]" for i in range(nstreams))
         ns = namespace_ident
         src += f'  if (proto == "{name}") {{\n'
-        src += f'    auto copy = [&](auto& r, auto& w) {{ r.CopyTo(w{args}); }};\n'
+        steps = cpp_steps_from_header(out_cpp, name) if out_cpp else None
+        explicit = ""
+        if steps:
+            k = 0
+            for step, ty, stream in steps:
+                if stream:
+                    explicit += (f" {{ std::vector<{ty}> b; b.reserve(bs[{k}]); std::vector<{ty}> none; w.Write{step}(none); "
+                                 f"while (r.Read{step}(b)) {{ w.Write{step}(b); w.Write{step}(none); }} w.End{step}(); }}")
+                    k += 1
+                else:
+                    explicit += f" {{ {ty} v; r.Read{step}(v); w.Write{step}(v); }}"
+            src += f'    auto copy = [&](auto& r, auto& w) {{ if (std::getenv("VF_EMPTY_BATCHES")) {{{explicit} }} else r.CopyTo(w{args}); }};\n'
+        else:
+            src += f'    auto copy = [&](auto& r, auto& w) {{ r.CopyTo(w{args}); }};\n'
         src += f'    if (infmt == "b" && outfmt == "b") return run<{ns}::binary::{name}Reader, {ns}::binary::{name}Writer>(in, out, copy);\n'
         if ndjson:
             src += f'    if (infmt == "b" && outfmt == "j") return run<{ns}::binary::{name}Reader, {ns}::ndjson::{name}Writer>(in, out, copy);\n'
@@ -365,7 +433,7 @@ class Report:
         self.rule = ""
         self.known = load_known_findings(prop)
         import glob
-        for f in glob.glob(os.path.join(VERIF, "evidence", "replays", f"{prop}-*.json")):
+        for f in glob.glob(os.path.join(EVIDENCE_BASE, "evidence", "replays", f"{prop}-*.json")):
             os.unlink(f)
 
     def count(self, key, n=1):
@@ -388,10 +456,10 @@ class Report:
                 if e["key"] not in [k for k, _ in self.known_hit]:
                     self.known_hit.append((e["key"], e["what"]))
                 return False
-        os.makedirs(os.path.join(VERIF, "evidence", "replays"), exist_ok=True)
+        os.makedirs(os.path.join(EVIDENCE_BASE, "evidence", "replays"), exist_ok=True)
         h = hashlib.sha1((key + json.dumps(replay, sort_keys=True, default=str)).encode()).hexdigest()[:12]
         path = os.path.join("evidence", "replays", f"{self.prop}-{h}.json")
-        with open(os.path.join(VERIF, path), "w") as f:
+        with open(os.path.join(EVIDENCE_BASE, path), "w") as f:
             json.dump({"property": self.prop, "key": key, "note": note, "replay": replay}, f, indent=1, default=str)
         self.violations.append((key, path, note))
         return True
@@ -417,8 +485,8 @@ class Report:
         ev = {"property_id": self.prop, "tier": self.tier, "seed": self.seed, "level": "proof",
               "coverage": cov, "assumptions": self.assumptions, "wall_s": round(wall, 2),
               "violations": len(self.violations)}
-        os.makedirs(os.path.join(VERIF, "evidence"), exist_ok=True)
-        with open(os.path.join(VERIF, "evidence", f"{self.prop}.json"), "w") as f:
+        os.makedirs(os.path.join(EVIDENCE_BASE, "evidence"), exist_ok=True)
+        with open(os.path.join(EVIDENCE_BASE, "evidence", f"{self.prop}.json"), "w") as f:
             json.dump(ev, f, indent=1, default=str)
         for _, what in self.known_hit:
             print(f"KNOWN-FINDING: property={self.prop} {what}")
